@@ -564,6 +564,45 @@ def clause_e(c: Check):
                                            else 'consumed outside the handler that converts pattern errors'),
                      '%s:%d' % (g.module.relpath, n.lineno))
     c.floor('C16-e', 'glob calls in the suite file-name resolver', n_glob, 1)
+    # EXC: asking the file system about a path written in a suite file (`stat`, `lstat`, `open`, `read_text`,
+    # `resolve(strict)`) fails with an OSError of ANY kind for a bad reference - not only FileNotFoundError: a
+    # reference below a regular file (`x.case/inner.case`) is NotADirectoryError, an unreadable directory
+    # PermissionError, a link loop OSError(ELOOP).  Every such call in the suite's file-reference code is inside a
+    # handler for OSError that raises the suite's own error (-> INVALID_SUITE / 3, not a traceback / 1)
+    n_fs = 0
+    for mn in ('exactly_lib.test_suite.instruction_set.utils', 'exactly_lib.test_suite.instruction_set.sections.suites',
+               'exactly_lib.test_suite.instruction_set.sections.cases'):
+        m_ = ix.module(mn)
+        for n in ast.walk(m_.tree):
+            if not (isinstance(n, ast.Call) and isinstance(n.func, ast.Attribute) and n.func.attr in RAISING_FS_QUERIES):
+                continue
+            f_ = m_.enclosing_func(n)
+            if f_ is None:
+                continue
+            n_fs += 1
+            covered = False
+            narrow = []
+            for t, part in util.enclosing_trys(n, stop=f_.node):
+                if part != 'body':
+                    continue
+                for types, h in util.handler_table(ix, f_, t):
+                    names = {d.dotted for d in types if isinstance(d, External)}
+                    converts = any(isinstance(x, ast.Raise) and x.exc is not None for x in ast.walk(h))
+                    if names & {'builtins.OSError', 'builtins.IOError', 'builtins.EnvironmentError', 'builtins.Exception',
+                                'builtins.BaseException'} and converts:
+                        covered = True
+                    else:
+                        narrow += sorted(x.split('.')[-1] for x in names)
+            c.expect(covered, 'C16-e', 'file-status-errors-converted/%s/%s' % (f_.key, n.func.attr),
+                     '`%s` can fail with any OSError for a path written in a suite file (NotADirectoryError for a '
+                     'reference below a regular file, PermissionError, ...) but %s: the run ends with a traceback and '
+                     'exit code 1 instead of INVALID_SUITE / 3' % (
+                         unparse(n)[:50], ('only %s is handled' % ', '.join(narrow)) if narrow else 'nothing is handled'),
+                     '%s:%d' % (m_.relpath, n.lineno))
+    c.floor('C16-e', 'raising file-system queries in the suite file-reference code', n_fs, 2)
+
+
+RAISING_FS_QUERIES = ('stat', 'lstat', 'open', 'read_text', 'read_bytes', 'iterdir', 'samefile', 'owner')
 
 
 # ---------------------------------------------------------------- f
